@@ -1617,6 +1617,9 @@ class Exec(object):
             self._cur_src = "requires %s/%s" % (label, lab)
             self.assume(st, g)
             self._cur_src = None
+        for g, n in c.ghost_pre.items():
+            v = self.eval_spec(n, pre.fork(), fid, spec_unit, pre)
+            st.ghost[g] = BI.unbox_like(v, st.ghost.get(g), pre)
         # exceptional exits
         for cls, cond in c.raises_ast.items():
             if ctx.spec:
